@@ -563,5 +563,139 @@ theorem validD_waited (l : Limiter) (w : Nat) :
     simp only [List.map_cons, validB, Bool.and_eq_true, decide_eq_true_eq]
     exact ⟨⟨⟨⟨hnow, hc⟩, hrd⟩, hn⟩, ih _ ha' hv'⟩
 
+/-! ### the wait context: a wait on a context that is not done is the plain wait -/
+
+theorem stepC_live (l : Limiter) (s : RunSt) (op : BOp) : stepC l s op false = stepB l s op := by
+  unfold stepC stepB waitNCtx
+  simp only [Bool.false_eq_true, if_false]
+
+theorem stepC_zero (l : Limiter) (s : RunSt) (op : BOp) (done : Bool) (hz : op.n = 0) :
+    stepC l s op done = stepB l s op := by
+  unfold stepC stepB
+  simp only [hz, if_true]
+
+/-- a history none of whose calls found its context done runs like its calls alone -/
+theorem runH_live (cx : WaitCtx) (l : Limiter) :
+    ∀ (h : List HEv) (s : HSt), liveAtCalls cx s.life h = true →
+      (runH cx l s h).run = runB l s.run (callsOf h) := by
+  intro h
+  induction h with
+  | nil => intros; rfl
+  | cons e rest ih =>
+    intro s hl
+    cases e with
+    | call op =>
+      simp only [liveAtCalls, Bool.and_eq_true, Bool.or_eq_true, Bool.not_eq_true', decide_eq_true_eq] at hl
+      obtain ⟨h1, h2⟩ := hl
+      have he : stepC l s.run op (cx.done s.life) = stepB l s.run op := by
+        rcases h1 with h1 | h1
+        · rw [h1]; exact stepC_live l s.run op
+        · exact stepC_zero l s.run op _ h1
+      simp only [runH, callsOf, runB, stepH]
+      rw [ih { run := stepC l s.run op (cx.done s.life), life := s.life } h2, he]
+    | listenerClose => simp only [liveAtCalls] at hl; exact ih (stepH cx l s .listenerClose) hl
+    | listenerOpen => simp only [liveAtCalls] at hl; exact ih (stepH cx l s .listenerOpen) hl
+    | runCancel => simp only [liveAtCalls] at hl; exact ih (stepH cx l s .runCancel) hl
+
+theorem validH_live (cx : WaitCtx) (l : Limiter) (w : Nat) :
+    ∀ (h : List HEv) (s : HSt), liveAtCalls cx s.life h = true → validH cx l w s h = true →
+      validB l w s.run (callsOf h) = true := by
+  intro h
+  induction h with
+  | nil => intros; rfl
+  | cons e rest ih =>
+    intro s hl hv
+    cases e with
+    | call op =>
+      simp only [liveAtCalls, Bool.and_eq_true, Bool.or_eq_true, Bool.not_eq_true', decide_eq_true_eq] at hl
+      obtain ⟨h1, h2⟩ := hl
+      have he : stepC l s.run op (cx.done s.life) = stepB l s.run op := by
+        rcases h1 with h1 | h1
+        · rw [h1]; exact stepC_live l s.run op
+        · exact stepC_zero l s.run op _ h1
+      simp only [validH, Bool.and_eq_true, decide_eq_true_eq, stepH] at hv
+      obtain ⟨hh, hv'⟩ := hv
+      simp only [callsOf, validB, Bool.and_eq_true, decide_eq_true_eq]
+      refine ⟨hh, ?_⟩
+      have := ih { run := stepC l s.run op (cx.done s.life), life := s.life } h2 hv'
+      simp only [he] at this
+      exact this
+    | listenerClose => simp only [liveAtCalls] at hl; simp only [validH] at hv; exact ih (stepH cx l s .listenerClose) hl hv
+    | listenerOpen => simp only [liveAtCalls] at hl; simp only [validH] at hv; exact ih (stepH cx l s .listenerOpen) hl hv
+    | runCancel => simp only [liveAtCalls] at hl; simp only [validH] at hv; exact ih (stepH cx l s .runCancel) hl hv
+
+/-- the code's wait context is never done -/
+theorem live_conn : ∀ (h : List HEv) (lf : Life), liveAtCalls connWaitCtx lf h = true := by
+  unfold connWaitCtx
+  intro h
+  induction h with
+  | nil => intros; rfl
+  | cons e rest ih =>
+    intro lf
+    cases e <;> simp [liveAtCalls, WaitCtx.done, ih]
+
+/-! ### the schedule layer: one direction's return times are those of that direction alone -/
+
+theorem sys_get_set (s : Sys) (d : Dir) (v : LState) : (s.set d v).get d = v := by
+  cases d <;> rfl
+
+/-- a call seen from its own direction -/
+theorem step_solo (L : Listener) (s : Sys) (op : Op) :
+    ((step L s op).1.get op.dir, (step L s op).2) = soloStep (L.limiter op.dir) (s.get op.dir) op.time op.n := by
+  unfold step soloStep
+  split
+  · rfl
+  · split
+    · rfl
+    · simp only [sys_get_set]
+
+theorem stepQ_wait_same (L : Listener) (s : Duplex) (op : QOp) :
+    (stepQ L s op).1.wait op.dir = upd (s.wait op.dir) op.conn (stepQ L s op).2 := by
+  unfold stepQ
+  cases hd : op.dir <;> simp only [Duplex.wait]
+
+theorem stepQ_wait_other (L : Listener) (s : Duplex) (op : QOp) (d : Dir) (h : op.dir ≠ d) :
+    (stepQ L s op).1.wait d = s.wait d := by
+  unfold stepQ
+  cases hd : op.dir <;> cases d <;> simp_all [Duplex.wait]
+
+theorem stepQ_sys (L : Listener) (s : Duplex) (op : QOp) :
+    (stepQ L s op).1.sys =
+      (step L s.sys { time := s.wait op.dir op.conn + op.io, conn := op.conn, dir := op.dir, n := op.n }).1 := by
+  unfold stepQ
+  cases op.dir <;> rfl
+
+theorem stepQ_ret (L : Listener) (s : Duplex) (op : QOp) :
+    (stepQ L s op).2 =
+      (step L s.sys { time := s.wait op.dir op.conn + op.io, conn := op.conn, dir := op.dir, n := op.n }).2 := by
+  unfold stepQ
+  cases op.dir <;> rfl
+
+theorem retsQ_solo (L : Listener) (d : Dir) :
+    ∀ (ops : List QOp) (s : Duplex),
+      retsQ L d s ops = soloQ (L.limiter d) (s.sys.get d) (s.wait d) (projQ d ops) := by
+  intro ops
+  induction ops with
+  | nil => intros; rfl
+  | cons op rest ih =>
+    intro s
+    simp only [retsQ, projQ]
+    by_cases hd : op.dir = d
+    · simp only [hd, if_true, soloQ]
+      have e := step_solo L s.sys { time := s.wait op.dir op.conn + op.io, conn := op.conn, dir := op.dir, n := op.n }
+      simp only at e
+      have e1 := congrArg Prod.fst e
+      have e2 := congrArg Prod.snd e
+      simp only at e1 e2
+      rw [← stepQ_sys] at e1
+      rw [← stepQ_ret] at e2
+      rw [ih (stepQ L s op).1]
+      have hw := stepQ_wait_same L s op
+      subst hd
+      rw [hw, e1, e2]
+    · simp only [hd, if_false]
+      rw [ih (stepQ L s op).1, stepQ_wait_other L s op d hd, stepQ_sys]
+      rw [step_other L s.sys _ d hd]
+
 end C20
 end FwdVerif
